@@ -212,7 +212,7 @@ def shards(tier, seed, scale=1.0):
     for c in range(nchunks):
         out.append({"name": "corpus-%d" % c, "type": "corpus", "files": files[c::nchunks], "nrand": nr,
                     "seed": sub(seed, ID, "corpus", c), "wall_limit_s": WALL_S[tier]})
-    nsh, per, nrand = {"quick": (24, 120, 4), "thorough": (64, 1200, 20)}[tier]
+    nsh, per, nrand = {"quick": (24, 120, 4), "thorough": (256, 110, 12)}[tier]
     per = max(1, int(per * scale))
     for s in range(nsh):
         out.append({"name": "gen-%d" % s, "type": "gen", "seed": sub(seed, ID, "gen", s), "programs": per, "nrand": nrand,
